@@ -27,13 +27,14 @@ LBL_READ = "C01.read-equals-validated-result"
 LBL_NORM = "C01.reads-normalised-form"
 LBL_FRAME = "C01.changes-no-other-field"
 
-STRING_T = ("String", "IPv4Address", "IPv4Network", "Hostname", "Url", "Filename")
+STRING_T = ("String", "LogLevel", "AppMode", "IPv4Address", "IPv4Network", "Hostname", "Url", "Filename")
 SCALAR_T = STRING_T + ("Int", "Float", "Port", "Bool", "Bytes")
 MODULE_OF = {"String": "string_field:StringField", "Int": "number_field:IntField", "Float": "number_field:FloatField",
              "Port": "net_field:PortField", "Bool": "bool_field:BoolField", "Bytes": "bytes_field:BytesField",
              "IPv4Address": "net_field:IPv4AddressField", "IPv4Network": "net_field:IPv4NetworkField",
              "Hostname": "net_field:HostnameField", "Url": "url_field:UrlField", "Filename": "file_field:FilenameField",
-             "List": "list_field:ListField", "Dict": "dict_field:DictField"}
+             "List": "list_field:ListField", "Dict": "dict_field:DictField",
+             "LogLevel": "string_field:LogLevelField", "AppMode": "string_field:ApplicationModeField"}
 TRUE_VALUES = ("t", "true", "1", "on", "yes", "y")          # BoolField class documentation
 FALSE_VALUES = ("f", "false", "0", "off", "no", "n")
 
@@ -142,7 +143,7 @@ def build(spec, env, path):
     cls = {"String": cc.StringField, "Int": cc.IntField, "Float": cc.FloatField, "Port": cc.PortField,
            "Bool": cc.BoolField, "Bytes": cc.BytesField, "IPv4Address": cc.IPv4AddressField,
            "IPv4Network": cc.IPv4NetworkField, "Hostname": cc.HostnameField, "Url": cc.UrlField,
-           "Filename": cc.FilenameField}[t]
+           "Filename": cc.FilenameField, "LogLevel": cc.LogLevelField, "AppMode": cc.ApplicationModeField}[t]
     return cls(**kw)
 
 
@@ -227,10 +228,36 @@ def _string_conj(kw, v, out):
         out.append("strip")
 
 
+def eff_kw(spec):
+    """the declared string options of a field; LogLevelField / ApplicationModeField declare `choices` through
+    levels= / modes= (documented defaults) and transform to lower case and strip unless told otherwise"""
+    kw = dict(spec.get("kw", {}))
+    t = spec["t"]
+    if t == "LogLevel":
+        kw["choices"] = kw.pop("levels", None) or ["debug", "info", "warning", "error", "critical"]
+    elif t == "AppMode":
+        kw["choices"] = kw.pop("modes", None) or ["development", "production"]
+        kw.pop("create_helpers", None)
+    if t in ("LogLevel", "AppMode"):
+        kw.setdefault("transform_case", "lower")
+        kw.setdefault("transform_strip", True)
+    return kw
+
+
+def transform_name(kw):
+    """'' or e.g. 'lower', 'upper+strip', 'strip-x': the transforms a string field declares"""
+    parts = [kw["transform_case"].lower()] if kw.get("transform_case") else []
+    strip = kw.get("transform_strip")
+    if strip:
+        parts.append("strip" if strip is True else "strip-" + strip)
+    return "+".join(parts)
+
+
 def conj(spec, v, env):
     """names of the declared constraints of a scalar field that the (non-None) value violates"""
     t, kw, out = spec["t"], spec.get("kw", {}), []
     if t in STRING_T:
+        kw = eff_kw(spec)
         if not isinstance(v, str):
             return ["type"]
         _string_conj(kw, v, out)
@@ -390,6 +417,7 @@ def norm(spec, raw, env, tree=False):
             raise Unknown()
         return {_hashable(norm(spec.get("key"), k, env)): norm(spec.get("value"), x, env) for k, x in raw.items()}
     if t in STRING_T:
+        kw = eff_kw(spec)
         if type(raw) is not str:
             raise Unknown()
         v = raw
@@ -671,6 +699,9 @@ def judge_invariant(env, op, status, found):
             canonical = all(b in INHERITED for b in bad) and type(raw) is type(v) and not strict_eq(raw, v) \
                 and not any(b in conj(spec, raw, env) for b in bad)
             wk = "%s:%s%s" % (t, names, ":canonical-form" if canonical else "")
+            if "choices" in bad and t in STRING_T and transform_name(eff_kw(spec)):
+                # the stored (transformed) value is not one of the choices as they are declared
+                wk = "choices+transform:%s/%s" % (t, transform_name(eff_kw(spec)))
             ob = "fields.%s._validate/post:%s" % (MODULE_OF[t], LBL_VAL)
             what = "%sField(%s) validates %s to %s, which violates its declared %s" % (
                 t, json.dumps(spec.get("kw", {})), short(raw), short(v), names)
@@ -775,6 +806,14 @@ def _after_step(env, op, status, before):
 
 # --------------------------------------------------------------------------------------------- value pools
 
+def _transformed(kw, v):
+    strip = kw.get("transform_strip")
+    if strip:
+        v = v.strip(strip) if isinstance(strip, str) else v.strip()
+    case = (kw.get("transform_case") or "").lower()
+    return v.upper() if case == "upper" else v.lower() if case == "lower" else v
+
+
 def _uniq(xs):
     out, seen = [], set()
     for x in xs:
@@ -802,9 +841,22 @@ def _leaf_pool(spec):
     """JSON-coded raw values for a scalar field; the first five are the core: valid (not the default), just
     outside a bound / malformed, wrongly typed, None, valid needing normalisation; then boundaries and more."""
     t, kw = spec["t"], spec.get("kw", {})
-    if t == "String":
+    if t in ("String", "LogLevel", "AppMode"):
+        kw = eff_kw(spec)
         lo, hi = kw.get("min_len"), kw.get("max_len")
         up = (kw.get("transform_case") or "") == "upper"
+        strip = kw.get("transform_strip")
+        if kw.get("choices") and (kw.get("transform_case") or strip):
+            # case / space variants of every choice and of non-choices
+            ch = kw["choices"]
+            pad = strip if isinstance(strip, str) else " "
+            fixed = [c for c in ch if _transformed(kw, c) == c]
+            core = [(fixed or ch)[-1], "zz", 5, None, pad + ch[0].swapcase() + pad]
+            more = []
+            for c in ch + ["zz"]:
+                more += [c, c.lower(), c.upper(), c.title(), c.swapcase(), pad + c + pad, " " + c, c.strip() + "\n",
+                         c.strip()]
+            return _uniq(core + more + ["", True, ["a"]])
         if kw.get("choices"):
             core = [kw["choices"][-1], "zz", 5, None, " %s " % kw["choices"][0]]
         else:
@@ -1085,6 +1137,21 @@ def leaves():
         ("String/lower+strip[..3]", S("String", "abc", transform_case="lower", transform_strip=True, max_len=3)),
         ("String/strip-x", S("String", "abc", transform_strip="x", min_len=1)),
         ("String/required", S("String", "r", required=True, min_len=1)),
+        # choices whose members the declared transform changes (stored value must be a choice as declared)
+        ("String/choices+lower", S("String", "blue", choices=["Red", "GREEN", "blue"], transform_case="lower")),
+        ("String/choices+upper", S("String", "GREEN", choices=["Red", "GREEN", "blue"], transform_case="upper")),
+        ("String/choices[Red]+lower", S("String", None, choices=["Red"], transform_case="lower")),
+        ("String/choices+strip", S("String", "b", choices=[" a ", "b", "c "], transform_strip=True)),
+        ("String/choices+strip-x", S("String", "b", choices=["xax", "b"], transform_strip="x")),
+        ("String/choices[]+lower", S("String", "abc", choices=[], transform_case="lower")),
+        ("LogLevel", S("LogLevel", "info")),
+        ("LogLevel/upper", S("LogLevel", None, transform_case="upper")),
+        ("LogLevel/mixed-levels", S("LogLevel", "warn", levels=["Debug", "INFO", "warn"])),
+        ("AppMode", S("AppMode", "production")),
+        ("AppMode/mixed-modes", S("AppMode", "test", modes=["Dev", "PROD", "test"])),
+        ("AppMode/mixed-modes+upper", S("AppMode", "PROD", modes=["Dev", "PROD", "test"], transform_case="upper",
+                                        create_helpers=False)),
+        ("AppMode/nostrip", S("AppMode", "test", modes=["Dev", "test"], transform_strip=False, create_helpers=False)),
         ("Int", S("Int", 7)),
         ("Int[1..5]", S("Int", 2, min=1, max=5)),
         ("Int[0..0]", S("Int", 0, min=0, max=0)),
@@ -1137,7 +1204,16 @@ def containers():
     item = {"t": "Schema", "fields": [["x", i15], ["s", nodef(up)]]}
     ctype = {"t": "ConfigType", "name": "Item", "fields": [["x", i15], ["s", nodef(up)]]}
     key = {"t": "String", "kw": {"regex": "^[a-z]+$", "max_len": 3}}
+    chl, chu = nodef(L["String/choices+lower"]), nodef(L["String/choices+upper"])
     out = [
+        ("List<String/choices+lower>", {"t": "List", "item": chl, "default": ["blue"]}),
+        ("List<LogLevel/upper>", {"t": "List", "item": nodef(L["LogLevel/upper"]), "default": []}),
+        ("Dict<String/choices+lower,String/choices+upper>", {"t": "Dict", "key": chl, "value": chu,
+                                                              "default": {"blue": "GREEN"}}),
+        ("Dict<,AppMode/mixed-modes+upper>", {"t": "Dict", "value": nodef(L["AppMode/mixed-modes+upper"]),
+                                               "default": {"a": "PROD"}}),
+        ("Dict<LogLevel/mixed-levels,>", {"t": "Dict", "key": nodef(L["LogLevel/mixed-levels"]),
+                                           "default": {"warn": 1}}),
         ("List", {"t": "List", "default": [1]}),
         ("List<Int[1..5]>", {"t": "List", "item": nodef(i15), "default": [1, 2]}),
         ("List<String/upper>", {"t": "List", "item": nodef(up), "default": ["A"]}),
@@ -1339,7 +1415,10 @@ def rac(tier="quick", seed=0):
     rec = Recorder(
         PID,
         rule="schema grammar (every built-in scalar field class x parameterisation at top level; typed/untyped "
-             "lists and dicts incl. list of schema / config type / nested containers; representative fields under "
+             "lists and dicts incl. list of schema / config type / nested containers; StringField / LogLevelField / "
+             "ApplicationModeField whose choices contain characters their case / strip transform changes, also as "
+             "list item, dict key and dict value (the stored value must be a choice as declared; an empty choices "
+             "list counts as no choices declared); representative fields under "
              "sub-schema depth 2 and 3, config-type field, dynamic schema, list-of-schema item) x operation "
              "sequences over the routes attr / dotted item / constructor keyword / load_tree / loads(json) / "
              "cmdline_args_override (Namespace and generated parser) / reset_value / in-place ListProxy and "
